@@ -288,3 +288,24 @@ Example C08_pkcs7_nonvacuous :
   /\ pkcs7_unpad 16%nat [5; 17] = UErr /\ pkcs7_unpad 16%nat [3; 3] = UErr.
 Proof. vm_compute. repeat split. Qed.
 Print Assumptions C08_pkcs7_nonvacuous.
+
+(* ---------------------------------------------------------------- never a silent end *)
+Theorem C08_reject_never_silent :
+  forall (sk : gs) (n : nat) (o : out), rejects sk = true -> run sk n o -> n = O /\ o = A.
+Proof. exact rejects_sound. Qed.
+Print Assumptions C08_reject_never_silent.
+
+(* ---------------------------------------------------------------- e-mail attachments (fourth entry point) *)
+(* an encrypted attachment at ANY position: the results of the attachments before it, then the encrypted
+   error — for every invocation (the model has no state; the check calls the implementation repeatedly) *)
+Theorem C08_attachment_encrypted_any_position :
+  forall (pre post : list att) (a : att),
+    existsb att_is_enc pre = false -> att_is_enc a = true ->
+    att_run (pre ++ a :: post) = ((sum_yields pre + att_yields a)%nat, true).
+Proof. intros pre post a. exact (att_run_enc pre a post). Qed.
+Print Assumptions C08_attachment_encrypted_any_position.
+
+Theorem C08_attachment_complete :
+  forall l : list att, existsb att_is_enc l = false -> att_run l = (sum_yields l, false).
+Proof. exact att_run_plain. Qed.
+Print Assumptions C08_attachment_complete.
